@@ -22,7 +22,7 @@ SEEDED = os.path.join(VERIF, "seeded")
 # extra properties whose checks are expected to notice a break of the given one
 ALSO = {
     "C01": ["C02", "C03", "C16"], "C02": ["C01", "C16", "C18"], "C03": ["C01", "C16"], "C16": ["C02", "C03"], "C18": ["C02", "C04"],
-    "C05": ["C06"], "C06": ["C05", "C14"], "C12": ["C13"], "C13": ["C12"], "C10": ["C11"], "C11": ["C10"], "C07": ["C08"], "C08": ["C07"],
+    "C05": ["C06", "C02", "C16"], "C06": ["C05", "C14"], "C12": ["C13"], "C13": ["C12"], "C10": ["C11"], "C11": ["C10"], "C07": ["C08"], "C08": ["C07"],
 }
 
 
@@ -90,15 +90,20 @@ def keep(mdir, prop, ident, res):
 
 
 def main(argv):
-    if argv and argv[0] == "--recheck":
+    if argv and argv[0] in ("--recheck", "--recheck-own"):
+        own_only = argv[0] == "--recheck-own"
         ids = argv[1:] or sorted(x for x in os.listdir(SEEDED) if os.path.exists(os.path.join(SEEDED, x, "meta.json")))
         for ident in ids:
             d = os.path.join(SEEDED, ident)
             meta = json.load(open(os.path.join(d, "meta.json")))
-            res = evaluate(d, meta["property"], ident, full=True)
+            res = evaluate(d, meta["property"], ident, full=not own_only)
             if "error" in res:
                 print(ident, "ERROR", res["error"])
                 continue
+            if own_only:
+                merged = dict(meta.get("checks", {}))
+                merged.update(res["checks"])
+                res["checks"] = merged
             meta["checks"] = res["checks"]
             meta["caught_by"] = sorted(p for p, c in res["checks"].items() if c["exit"] == 1 and c["violation_lines"])
             meta["confirmed"] = {k: res[k] for k in ("demo_clean_exit", "demo_mutant_exit", "tests")}
